@@ -392,9 +392,9 @@ Hypothesis HIo : Inv dout.
 Variable rb : list op.
 
 Lemma expand_noop_same t s : Tracked rb din dout s -> expand_noop t din dout = true ->
-  forall mode, expand_information mode t s = (true, s).
+  forall mode reg, expand_information mode t reg s = (true, s).
 Proof.
-  intros [Ha [[exi [_ [_ [_ [Hli [Hgi [Hdi _]]]]]]] [[exo [_ [_ [_ [Hlo [Hgo [Hdo _]]]]]]] _]]] He mode.
+  intros [Ha [[exi [_ [_ [_ [Hli [Hgi [Hdi _]]]]]]] [[exo [_ [_ [_ [Hlo [Hgo [Hdo _]]]]]]] _]]] He mode reg.
   unfold expand_information, getdb. rewrite Ha.
   unfold expand_noop in He. unfold ndim, locnum in *. rewrite Hlo, Hgo, Hdo, Hli.
   destruct (d_grid dout && (t =? L_X)).
@@ -526,9 +526,10 @@ Theorem atomic_generic (c : calc) (din dout : db) (fs : Z) (fk : nat) (s' : st) 
 Proof.
   intros HIi HIo Hwf Hfs Hrun.
   unfold wf_atomic in Hwf. apply andb_true_iff in Hwf as [Hwf Hrb]. apply andb_true_iff in Hwf as [Hwf Hpost].
-  apply andb_true_iff in Hwf as [Hpre Hbody].
+  apply andb_true_iff in Hwf as [Hwf Hbody]. apply andb_true_iff in Hwf as [Hini Hpre].
+  assert (k_init c = []) as Hk by (destruct (k_init c); [reflexivity | discriminate]).
   pose proof (Tracked_init (k_rollback c) din dout) as T0.
-  unfold calc_run in Hrun.
+  unfold calc_run in Hrun. rewrite Hk in Hrun. cbn [exec_quiet] in Hrun.
   set (RB := fun s => rollback_restores din dout HIi HIo (k_rollback c) (k_nc c) s) in *.
   destruct (negb (k_check c (init_st din dout false))).
   { inversion Hrun; subst. apply RB; assumption. }
@@ -613,9 +614,10 @@ Theorem usable_generic (c : calc) (din dout : db) (fs : Z) (fk : nat) (s' : st) 
 Proof.
   intros HIi HIo Hwf Hfs Hrun.
   unfold wf_atomic in Hwf. apply andb_true_iff in Hwf as [Hwf Hrb]. apply andb_true_iff in Hwf as [Hwf Hpost].
-  apply andb_true_iff in Hwf as [Hpre Hbody].
+  apply andb_true_iff in Hwf as [Hwf Hbody]. apply andb_true_iff in Hwf as [Hini Hpre].
+  assert (k_init c = []) as Hk by (destruct (k_init c); [reflexivity | discriminate]).
   pose proof (Tracked_init (k_rollback c) din dout) as T0.
-  unfold calc_run in Hrun.
+  unfold calc_run in Hrun. rewrite Hk in Hrun. cbn [exec_quiet] in Hrun.
   set (RB := fun s => rollback_restores_inv din dout (k_rollback c) (k_nc c) s HIi HIo) in *.
   destruct (negb (k_check c (init_st din dout false))).
   { inversion Hrun; subst. apply RB; assumption. }
